@@ -18,7 +18,7 @@ pub uninterp spec fn raw_get<T>(db: &RawStore, key: Seq<u8>) -> Option<T>;
 impl RawStore {
     #[verifier::external_body]
     pub fn batch(&self) -> (r: Result<RawBatch<'_>, StoreError>)
-        ensures r matches Ok(b) ==> b.store() == self { unimplemented!() }
+        ensures r matches Ok(b) ==> b.store() == self && !b.writable() { unimplemented!() }
 }
 impl RawStore {
     // Store::get_ser: the committed value under the key
@@ -33,6 +33,9 @@ pub fn option_to_not_found<T, F: Fn() -> String>(res: Result<Option<T>, StoreErr
 { unimplemented!() }
 impl<'a> RawBatch<'a> {
     pub uninterp spec fn store(&self) -> &RawStore;
+    // C14 gate: a raw batch is WRITTEN only from inside the `Batch` wrapper (which exists only through LMDBBackend::batch(mask) — after
+    // the token check — or batch_no_mask); the batch a backend method takes directly from `self.db.batch()` is for reading only
+    pub uninterp spec fn writable(&self) -> bool;
     #[verifier::external_body]
     pub fn get_ser<T>(&self, key: &[u8], deser_mode: Option<u8>) -> (r: Result<Option<T>, StoreError>)
         ensures r matches Ok(v) ==> v == raw_get::<T>(self.store(), key@) { unimplemented!() }
@@ -70,16 +73,17 @@ pub uninterp spec fn was_put<T>(b: &RawBatch, key: Seq<u8>, v: T) -> bool;
 impl<'a> RawBatch<'a> {
     #[verifier::external_body]
     pub fn put_ser<T>(&self, key: &[u8], value: &T) -> (r: Result<(), StoreError>)
+        requires self.writable()
         ensures r is Ok ==> was_put(self, key@, *value) { unimplemented!() }
     // commit of a RAW batch: writes the store directly, without any keychain / token check (nothing else is specified)
     #[verifier::external_body]
-    pub fn commit(self) -> (r: Result<(), StoreError>) { unimplemented!() }
+    pub fn commit(self) -> (r: Result<(), StoreError>) requires self.writable() { unimplemented!() }
 }
 // `self.db.borrow().as_ref().unwrap()`: the raw batch; panics once the batch has been committed (db taken)
 pub uninterp spec fn refcell_holds<'a>(c: &RefCell<Option<RawBatch<'a>>>) -> bool;
 #[verifier::external_body]
 pub fn vf_batch_db<'b, 'a>(c: &'b RefCell<Option<RawBatch<'a>>>) -> (r: &'b RawBatch<'a>)
-    requires refcell_holds(c) ensures r == vf_db_of(c) { unimplemented!() }
+    requires refcell_holds(c) ensures r == vf_db_of(c), r.writable() { unimplemented!() }
 impl Blake2bResult {
     #[verifier::external_body]
     pub fn as_bytes(&self) -> (r: &[u8]) ensures r@ == spec_blake_bytes(*self), r@.len() == 32 { unimplemented!() }
